@@ -101,11 +101,11 @@ theorem setF_eager_eq (sch : Schema) (inj : Option Inj) (props : Nat → Extra) 
     (fun x hx => by simp [Nat.blt_eq, hlt x hx])
   have hf2 := filter_fst_all kw (fun x => Nat.blt x.fst (clsOf sch c).cols.length) (fun x => (PV.name x.fst).pair (ofVal x.snd.val))
     (fun x hx => by simp [Nat.blt_eq, hlt x hx])
-  unfold setF setProg set_nlocals set_nlists set_ndicts
+  unfold setF setFWith setProg set_nlocals set_nlists set_ndicts
   pfwith [hl, kwPV, hf1, hf2, hkw0]
   simp only [Function.comp_def]
   generalize hF : forLoop _ _ _ = r
-  obtain ⟨hOk, hBad⟩ := set_for4_loop noCall kw
+  obtain ⟨hOk, hBad⟩ := set_for4_loop propCall kw
     { sch := sch, inj := inj, props := props, s := s, c := c, id := id, creating := false,
       nobj := { vals := [], cv := [], dirty := false }, sigSuppress := false, lock := true, vq := vqOf kw }
     [] (some (.bool false)) none none none none none none none none none none none [[], [], []] (kwPV kw) [] [] []
@@ -158,7 +158,7 @@ theorem setF_eager_eq (sch : Schema) (inj : Option Inj) (props : Nat → Extra) 
             (Fail.asgOf kw).map fun e => PV.pair (.name e.1) (ofVal e.2) := by simp [Fail.asgOf]
         rw [hitems]
         generalize hF : forLoop _ _ _ = r
-        obtain ⟨c3, c4, hc⟩ := set_cache_loop noCall set_for6 rfl (Fail.asgOf kw)
+        obtain ⟨c3, c4, hc⟩ := set_cache_loop propCall set_for6 rfl (Fail.asgOf kw)
           { sch := sch, inj := inj, props := props, s := s1, c := c, id := id, creating := false,
             nobj := { vals := [], cv := [], dirty := false }, sigSuppress := false, lock := true, vq := [] }
           (some (.bool false)) none none b3 b4 b5 b6 b7 none none none none
